@@ -522,6 +522,57 @@ def units(world):  # noqa: F811
     return _units_base2(world) + gen_units(world)
 
 
+def search_locals(fnode):
+    """names of the locals of _ctparse by their ROLE (so that the fragment units survive renames):
+    stack (tested by the production `while`), check (the zero-argument call that opens its body), current (the partial
+    parse popped from the stack / iterated by the emission loop), stack_table (dict asked with `.get(<x>.prod, ...)`),
+    emit_table (dict asked with `.get(<value>, ...)` inside the emission loop), subject / labels (4th / 5th argument of the
+    CTParse built for the yield).  Missing roles keep their historical names."""
+    names = {"stack": "stack", "check": "t_fun", "current": "s", "stack_table": "stack_prod", "emit_table": "parse_prod",
+             "subject": "subject", "labels": "labels"}
+    loop = None
+    for n in ast.walk(fnode):
+        if isinstance(n, ast.While) and isinstance(n.test, ast.Name) and any(
+                isinstance(c, ast.Call) and isinstance(c.func, ast.Attribute) and c.func.attr == "pop"
+                and isinstance(c.func.value, ast.Name) and c.func.value.id == n.test.id for st in n.body for c in ast.walk(st)):
+            loop = n
+            break
+    if loop is not None:
+        names["stack"] = loop.test.id
+        for st in loop.body:
+            if isinstance(st, ast.Expr) and isinstance(st.value, ast.Call) and isinstance(st.value.func, ast.Name) \
+                    and not st.value.args and not st.value.keywords:
+                names["check"] = st.value.func.id
+                break
+        for st in loop.body:
+            if isinstance(st, ast.Assign) and isinstance(st.value, ast.Call) and isinstance(st.value.func, ast.Attribute) \
+                    and st.value.func.attr == "pop" and len(st.targets) == 1 and isinstance(st.targets[0], ast.Name):
+                names["current"] = st.targets[0].id
+                break
+    emit = None
+    for n in ast.walk(fnode):
+        if isinstance(n, ast.For) and isinstance(n.iter, ast.Attribute) and n.iter.attr == "prod" and isinstance(n.iter.value, ast.Name) \
+                and any(isinstance(y, ast.Yield) for y in ast.walk(n)):
+            emit = n
+    if emit is not None:
+        names["current"] = emit.iter.value.id
+        xname = emit.target.id if isinstance(emit.target, ast.Name) else None
+        for c in ast.walk(emit):
+            if isinstance(c, ast.Call) and isinstance(c.func, ast.Attribute) and c.func.attr == "get" and isinstance(c.func.value, ast.Name) \
+                    and c.args and isinstance(c.args[0], ast.Name) and c.args[0].id == xname:
+                names["emit_table"] = c.func.value.id
+            if isinstance(c, ast.Call) and isinstance(c.func, ast.Name) and c.func.id == "CTParse" and len(c.args) == 5:
+                if isinstance(c.args[3], ast.Name):
+                    names["subject"] = c.args[3].id
+                if isinstance(c.args[4], ast.Name):
+                    names["labels"] = c.args[4].id
+    for c in ast.walk(fnode):
+        if isinstance(c, ast.Call) and isinstance(c.func, ast.Attribute) and c.func.attr == "get" and isinstance(c.func.value, ast.Name) \
+                and c.args and isinstance(c.args[0], ast.Attribute) and c.args[0].attr == "prod":
+            names["stack_table"] = c.func.value.id
+    return names, loop
+
+
 # ---------------------------------------------------------------------------------------------
 # C14(3): the emission block of _ctparse keeps the table "value -> best score emitted so far"
 def emission_units(world):
@@ -556,8 +607,9 @@ def emission_units(world):
             def score_final(it2, args, k):
                 calls.append(tuple(args))
                 return sx
-            fr.vars.update({"s": s, "txt": Tok("txt"), "ts": Tok("ts"), "subject": Tok("subject"), "labels": Tok("labels"),
-                            "parse_prod": E, "scorer": ModVal("scorer", {"score_final": Builtin("score_final", score_final)})})
+            nm, _ = search_locals(f.node)
+            fr.vars.update({nm["current"]: s, "txt": Tok("txt"), "ts": Tok("ts"), nm["subject"]: Tok("subject"), nm["labels"]: Tok("labels"),
+                            nm["emit_table"]: E, "scorer": ModVal("scorer", {"score_final": Builtin("score_final", score_final)})})
             it.exec_fragment(loop, fr)
             return (fr.yielded, calls, fr)
 
